@@ -5,7 +5,8 @@
  'enforce': 'debug_printdec_uint64',
  'unwindset': ['debug_printdec_uint64.0:21', 'debug_strlen.0:22', 'debug_write.0:22'],
  'complete_unwinding': 'digit loop <= 20 iterations (2^64 - 1 has 20 decimal digits), debug_strlen and the library debug_write over that text <= 21: unwound with unwinding assertions',
- 'solver': 'cadical',
+ 'solver': 'kissat',
+ 'witness': {'unwind': 8},
  'trusted': ['debug_putchar is the platform hook (dprint.h: implemented outside the library); the unit supplies the observing acceptor c12_sink for it'],
  'note': 'debug_printdec_uint64 is anchored in C07 (integer rendering); this unit proves only what the C12 float printer needs from it, in the vocabulary of the C12 observer',
 } @*/
@@ -25,7 +26,16 @@ void harness(void)
     WIT(uint, id);
     WIT(uint, fd);
     __CPROVER_assume(st <= C12_S_BAD && on <= 1000u && id < 0x7fffffffu && fd < 0x7fffffffu);
+#ifdef WITNESS_MODE /* concretisation: small cases only */
+    __CPROVER_assume(x < 100000u);
+#endif
     g_st = st; g_on = on; g_id = id; g_fd = fd; g_minus = 0;
     debug_printdec_uint64(x);
+    /* the contract once more as plain assertions: the concretisation / replay runs are compiled without
+     * contract instrumentation and need something to check */
+    __CPROVER_assert(!(st == C12_S_START || st == C12_S_SIGN || st == C12_S_INT) || (g_st == C12_S_INT && g_id == id + C12_NDIG64(x) && g_fd == fd),
+                     "before the point: only digits emitted, integer digit count grows by the number of decimal digits of x");
+    __CPROVER_assert(!(st == C12_S_DOT || st == C12_S_FRAC) || (g_st == C12_S_FRAC && g_fd == fd + C12_NDIG64(x) && g_id == id),
+                     "behind the point: only digits emitted, fraction digit count grows by the number of decimal digits of x");
     CANARY("dprint_uint64 harness end reachable");
 }
